@@ -295,6 +295,11 @@ def bind_call(m: Model, caller: FuncInfo, call: ast.Call) -> dict[str, ast.expr]
         callee = m.resolve_method(caller.cls, fn.attr)
     else:
         callee = m.resolve_expr(caller.module, fn, caller.cls)
+    if callee is None and isinstance(fn, ast.Attribute):
+        # receiver of unknown type: resolve by method name when exactly one class of the program defines it
+        cands = [c.methods[fn.attr] for c in m.classes.values() if fn.attr in c.methods]
+        if len(cands) == 1:
+            callee = cands[0]
     params: list[str]
     if isinstance(callee, FuncInfo):
         params = callee.params()
